@@ -15,6 +15,8 @@ grepio  <grep options> bs= w= [nosd] [lay=] [perm=] | <records> | <table>   -> k
 annotio <options> bs= w= [lay=] [perm=] | <records> | <table>               -> the output records, in order
 distio  <dist options> bs= w= [lay=] [perm=] | <records>                     -> <file>=<ids> … (sorted by file)
 argv <command> <hex argv words> | -                                          -> error:<class> or the option state
+[race] conc <g> <r> grep|annot|class …   (a grep / annot / class case)         -> the result of that case (wave 3,
+      `harness/c16_conc.go`: the records alone, then from g goroutines sharing the closure built once, r rounds)
 ```
 `lay` (sizes of the input batches) and `perm` (their arrival order) only have to be consistent with
 the number of records: the result does not depend on them (C03 + `grep_filter`, `annotate_stream`,
@@ -714,7 +716,8 @@ def both (f : Tab → String) (t : List (String × String)) : String :=
 /-- the record-level operations take no pipeline token -/
 def plain (o : Opts) : Bool := o.nosd || o.lay.isSome || o.perm.isSome
 
-def run (line : String) : String :=
+/-- the sequential cases (every op but `conc`) -/
+def runSeq (line : String) : String :=
   match line.splitOn " | " with
   | [head, recs, tab] =>
     match words head, parseRecs recs with
@@ -757,5 +760,31 @@ def run (line : String) : String :=
       | _, _, _ => "bad-op"
     | _, _ => "bad-op"
   | _ => "bad-op"
+
+/-! ### concurrent use (`harness/c16_conc.go`) -/
+
+/-- `g` goroutines (1..64), `r` rounds (1..500), written canonically -/
+def concCount (s : String) (hi : Nat) : Bool :=
+  match s.toNat? with
+  | some n => 1 ≤ n && n ≤ hi && toString n == s
+  | none => false
+
+/-- `conc <g> <r> grep|annot|class …`: the answers of the records run ALONE, one after the other, through the predicate /
+annotation worker / classifier, i.e. the sequential case; the harness demands the same answers from every call made from
+`g` goroutines sharing the closure built once by the real option-to-closure code (`r` rounds, fresh records per goroutine).
+`race conc …`: the same cases through a `-race` build of the harness. -/
+def runConc (ws : List String) : String :=
+  match ws with
+  | g :: r :: op :: rest =>
+    if concCount g 64 && concCount r 500 && (op = "grep" || op = "annot" || op = "class") then
+      runSeq (" ".intercalate (op :: rest))
+    else "bad-op"
+  | _ => "bad-op"
+
+def run (line : String) : String :=
+  match line.splitOn " " with
+  | "conc" :: ws => runConc ws
+  | "race" :: "conc" :: ws => runConc ws
+  | _ => runSeq line
 
 end ObiVerif.Driver.C16
